@@ -321,7 +321,7 @@ def _all(draw, og):
 @recipe("count_nonzero", "logical", result="index")
 def _cnz(draw, og):
     a = og.array(draw, min_ndim=1)
-    return {"args": [P(a)], "kw": _reduce_kw(draw, a, keepdims=False)}
+    return {"args": [P(a)], "kw": _reduce_kw(draw, a)}
 
 
 @recipe("nonzero", "logical", result="tuple", method="nonzero")
@@ -393,16 +393,23 @@ RECIPES["argmin"] = Recipe("argmin", "ordering", _argmax, result="index", flags=
 
 # ---- linear reductions
 
+def _with_initial(draw, kw):
+    """Sometimes a start value for the fold (a plain number, as numpy requires)."""
+    if draw(st.integers(0, 5)) == 0:
+        kw["initial"] = draw(st.sampled_from([2, 5, -3, 0]))
+    return kw
+
+
 @recipe("sum", "reduction", method="sum", reduce="add")
 def _sum(draw, og):
     a = og.array(draw, min_ndim=1)
-    return {"args": [P(a)], "kw": _with_dtype(draw, _reduce_kw(draw, a), a)}
+    return {"args": [P(a)], "kw": _with_initial(draw, _with_dtype(draw, _reduce_kw(draw, a), a))}
 
 
 @recipe("prod", "reduction", method="prod", reduce="multiply", cost=3)
 def _prod(draw, og):
     a = og.array(draw, min_ndim=1)
-    return {"args": [P(a)], "kw": _with_dtype(draw, _reduce_kw(draw, a), a)}
+    return {"args": [P(a)], "kw": _with_initial(draw, _with_dtype(draw, _reduce_kw(draw, a), a))}
 
 
 @recipe("mean", "reduction", method="mean")
@@ -717,7 +724,11 @@ _split("dsplit", axis_fixed=2, min_ndim=3)
 def _full(draw, og):
     shape = list(draw(gen.shape_st(2)))
     fill = og.array(draw, shape=() if draw(st.booleans()) else gen.broadcast_member(draw, tuple(shape)))
-    return {"args": [{"$tuple": shape}, P(fill)], "kw": {}}
+    shape_arg = {"$tuple": shape}
+    if len(shape) == 1 and draw(st.booleans()):
+        # a one-dimensional shape may be given as a plain or numpy integer
+        shape_arg = shape[0] if draw(st.booleans()) else {"$npint": shape[0]}
+    return {"args": [shape_arg, P(fill)], "kw": {}}
 
 
 @recipe("full_like", "creation")
@@ -878,6 +889,8 @@ def invoke(rec, args, kw, spelling):
         return getattr(numpy, rec.reduce).reduce(args[0], **kw)
     if spelling == "accumulate":
         return getattr(numpy, rec.accumulate).accumulate(args[0], **kw)
+    if spelling == "like":  # numpy.full/zeros/ones reach the override protocol through like= only
+        return getattr(numpy, rec.np_name)(*args, like=numpoly.polynomial(0), **kw)
     if spelling == "reduce-default":  # axis omitted: the ufunc methods default to axis=0
         return getattr(numpy, rec.reduce).reduce(args[0], **{k: v for k, v in kw.items() if k != "axis"})
     if spelling == "accumulate-default":
@@ -900,7 +913,7 @@ def spellings_of(rec, args, kw):
     # ufunc.reduce/accumulate default to axis=0 while sum/cumsum default to axis=None by
     # definition, so these spellings need the axis spelled out (an int, a tuple or an explicit None for
     # reduce; an int for accumulate), and the axis-omitted ufunc spelling corresponds to axis=0
-    if rec.reduce and first_poly and set(kw) <= {"axis", "keepdims", "dtype"} and "axis" in kw:
+    if rec.reduce and first_poly and set(kw) <= {"axis", "keepdims", "dtype", "initial"} and "axis" in kw:
         out.append("reduce")
         if isinstance(kw["axis"], int) and not isinstance(kw["axis"], bool) and kw["axis"] == 0:
             out.append("reduce-default")
